@@ -50,7 +50,10 @@ DISTR_RULE = ("sub-distributor graphs (1-5 sub-distributors; MAIN, module, base 
               "Params.Validate; inflows into main and source accounts; 2-11 blocks; the real cfedistributor.BeginBlocker runs through a keeper whose "
               "BankKeeper records every call's outcome (and, in fault mode, injects failures per a generated bit pattern); after every block states, "
               "balances, burned amounts and typed events are compared with the Coq model given the same outcome bits; ~14% of the cases are drawn "
-              "from the known-finding shapes K1-K4; non-trivial = at least one block ran; distinct = distinct (configuration, operation list)")
+              "from the known-finding shapes K1-K4; profile updates: a governance update (Keeper.SetParams) replaces the configuration between two blocks of "
+              "the history — the same graph with an internal account's id re-typed to a module or base account, a freshly generated graph, or other share "
+              "and burn fractions — and the model takes the same update (DSetSubs); non-trivial = at least one block ran; distinct = distinct "
+              "(configuration, operation list)")
 
 def distr(profile, nq, nt):
     return {"kind": "distr", "profile": profile, "n_quick": nq, "n_thorough": nt, "per_shard": 20}
@@ -105,7 +108,7 @@ PROPS = {
     "C10": {
         "title": "Emission and distribution can never halt the chain",
         "model": "Minter.v mint_rec / begin_block; MinterWalk.v run_blocks; Distributor.v start_distribution, payout_all, dist_begin_block; Genesis.v import",
-        "runs": [app(120, 5000), minter(100, 4000), distr("", 200, 8000), distr("faults", 80, 3000),
+        "runs": [app(120, 5000), minter(100, 4000), distr("", 200, 8000), distr("faults", 80, 3000), distr("updates", 60, 2500),
                  {"kind": "params", "profile": "", "n_quick": 200, "n_thorough": 8000, "per_shard": 20}],
         "preds": ["C10."],
         "rule": APP_RULE + " | " + MINTER_RULE + " | " + DISTR_RULE + "; every BeginBlock / EndBlock runs under recover(); the application-mode histories include genesis export/import with further blocks on the restored application",
@@ -154,7 +157,7 @@ PROPS = {
     "C03": {
         "title": "Distributor books always match the coins it holds",
         "model": "Distributor.v: prepare_source, start_distribution, payout_all, dist_begin_block",
-        "runs": [distr("", 320, 12000)],
+        "runs": [distr("", 320, 12000), distr("updates", 80, 3000)],
         "preds": ["C03."],
         "rule": DISTR_RULE,
         "partial": ["the hypotheses of the history theorem that are not consequences of validation are the two known-finding classes (sources in order = not K1, "
@@ -173,7 +176,7 @@ PROPS = {
     "C04": {
         "title": "Every destination receives exactly its configured share",
         "model": "Distributor.v: calc_share, distribute_shares, start_distribution, add_share_to_account (findAccountState semantics)",
-        "runs": [distr("", 320, 12000)],
+        "runs": [distr("", 320, 12000), distr("updates", 80, 3000)],
         "preds": ["C04."],
         "rule": DISTR_RULE + "; C04 compares every destination's credited amount (balance gained + recorded remains) with an independent exact-rational oracle of the configured shares",
         "partial": ["the whole-history theorems (refinement of the credited-amounts machine Ledger.a_block; independence from the order of the non-MAIN "
